@@ -19,7 +19,7 @@ pub static DEF: PropertyDef = PropertyDef {
            instance back in lockstep with a fresh one; the same runs in the dev profile (overflow checks on) must give identical event logs. \
            Non-trivial = at least one story fault fired (an error was reported or a wrap line was checked); distinct = hash of program+history.",
     assumptions: &["fuel exhaustion discards the case (runaway stories are legal)", "the dev-profile comparison runs when ./check has built the dev binary (it always does)"],
-    runs_quick: 6000,
+    runs_quick: 24000,
     runs_thorough: 400000,
     exhaustive_note: "none (sampled programs and histories)",
     generate,
@@ -27,7 +27,7 @@ pub static DEF: PropertyDef = PropertyDef {
     must_hit: &["fault.story_fault.fired", "fault.wrap_line.checked", "fault.zero_site.reached", "fault.reset_after_error.fired"],
     timeout_s: 30,
     hang_class: None,
-    sub_builds: &[("dev", 1500, 30000, true)],
+    sub_builds: &[("dev", 5000, 40000, true)],
     stack_mb: 64,
 };
 
